@@ -187,3 +187,27 @@ def san_env(extra=None):
     if extra:
         e.update(extra)
     return e
+
+
+def build_cli(outdir, san="asan"):
+    """The eav tool linked the way bin/Makefile does it: tool objects + an (instrumented) shared libeav.so."""
+    vdir = os.path.join(outdir, "cli-" + san)
+    objs, flags = build_objects(vdir, san=san)
+    so = os.path.join(vdir, "libeav.so")
+    rc, out = run(["gcc"] + SAN_FLAGS[san] + ["-shared", "-Wl,-soname,libeav.so", "-o", so] + objs + ["-lidn2"])
+    if rc != 0:
+        raise BuildError("libeav.so link failed\n" + out)
+    stock, _ = stock_make_defs()
+    cflags = list(SAN_FLAGS[san]) + ["-std=c99", "-D_DEFAULT_SOURCE", "-D_XOPEN_SOURCE=700", "-D_SVID_SOURCE", "-D__EXTENSIONS__",
+                                     "-I" + os.path.join(REPO, "include"), "-DHAVE_LIBIDN2"]
+    tobjs = []
+    for f in sorted(os.listdir(os.path.join(REPO, "bin"))):
+        if f.endswith(".c"):
+            o = os.path.join(vdir, "bin__" + f[:-2] + ".o")
+            _compile("gcc", cflags, os.path.join("bin", f), o, REPO)
+            tobjs.append(o)
+    exe = os.path.join(vdir, "eav")
+    rc, out = run(["gcc"] + SAN_FLAGS[san] + ["-o", exe] + tobjs + ["-L" + vdir, "-leav", "-lidn2"])
+    if rc != 0:
+        raise BuildError("eav tool link failed\n" + out)
+    return exe, vdir
